@@ -61,16 +61,34 @@ Fixpoint read_cats (ls : list catline) (names : list str) (infos : list (N * N))
                            | Some id => (id, names)
                            | None => (N.of_nat (length names), names ++ [cl_name l])
                            end in
-      match pack 0 id (cl_invoke l) (cl_group l) (cl_length l) with
-      | None => Panic                                   (* CharInfo::new(..).unwrap() *)
+      if CATE_IDSET_BITS <=? id then Err                (* more than 18 categories *)
+      else match pack 0 id (cl_invoke l) (cl_group l) (cl_length l) with
+      | None => Err                                     (* CharInfo::new(..) = None: LENGTH >= 16 *)
       | Some w => read_cats t names' ((id, w) :: infos)
       end
   end.
 
 (** [encode_cate_info] *)
+Fixpoint enc_go (names : list str) (infos : list (N * N)) (ts : list str) (acc : N) : result N :=
+  match ts with
+  | [] => Ok acc
+  | t :: ts' =>
+      match index_of t names 0 with
+      | None => Err                       (* undefined category *)
+      | Some id =>
+          match assoc_N id infos with
+          | None => Err                   (* a name known but never defined (DEFAULT without a line) *)
+          | Some w =>
+              let b := N.land (N.shiftr w CATE_IDSET_BITS) BASE_ID_MASK in
+              if 32 <=? b then Panic      (* 1 << base_id overflows u32 (dev profile) *)
+              else enc_go names infos ts' (N.lor acc (N.shiftl 1 b))
+          end
+      end
+  end.
+
 Definition encode_cate_info (names : list str) (infos : list (N * N)) (targets : list str) : result N :=
   match targets with
-  | [] => Panic                                         (* targets[0] *)
+  | [] => Err                                           (* a range line without a category is rejected by the parser *)
   | t0 :: _ =>
       match index_of t0 names 0 with
       | None => Err
@@ -78,23 +96,7 @@ Definition encode_cate_info (names : list str) (infos : list (N * N)) (targets :
           match assoc_N id0 infos with
           | None => Err
           | Some base =>
-              let fix go (ts : list str) (acc : N) : result N :=
-                match ts with
-                | [] => Ok acc
-                | t :: ts' =>
-                    match index_of t names 0 with
-                    | None => Panic                     (* cate_map.get(..).unwrap() *)
-                    | Some id =>
-                        match assoc_N id infos with
-                        | None => Panic                 (* cate2info.get(..).unwrap() *)
-                        | Some w =>
-                            let b := N.land (N.shiftr w CATE_IDSET_BITS) BASE_ID_MASK in
-                            if 32 <=? b then Panic      (* 1 << base_id overflows u32 (dev profile) *)
-                            else go ts' (N.lor acc (N.shiftl 1 b))
-                        end
-                    end
-                end in
-              do cates <- go targets (N.land base CATE_IDSET_MASK) ;;
+              do cates <- enc_go names infos targets (N.land base CATE_IDSET_MASK) ;;
               Ok (reset_cates base cates)
           end
       end
